@@ -59,8 +59,6 @@ WEBOB_STATUS = {
 
 # library callables that raise on bad input: dotted/builtin name -> classes
 LIB_RAISES = {
-    'int': ('ValueError',),
-    'float': ('ValueError',),
     'uuid.UUID': ('ValueError',),
     'oslo_serialization.jsonutils.loads': ('ValueError',),
     'jsonschema.validate': ('jsonschema.ValidationError',),
@@ -351,6 +349,43 @@ class Raises(object):
     # -- queries -----------------------------------------------------------
     def escaping(self, f):
         return set(self.summary[f])
+
+    def origins(self, f, exc, _seen=None):
+        """Set of (func, node, via) raise / library-call sites from which
+        exc can reach f's caller uncaught."""
+        _seen = _seen if _seen is not None else set()
+        out = set()
+        if f in _seen:
+            return out
+        _seen.add(f)
+        if exc not in self.summary.get(f, ()):
+            return out
+        for x, node, via in self.sites[f]:
+            if x != exc and not (x.startswith(SELFATTR) and via == 'raise'):
+                continue
+            if via in ('raise',):
+                if x == exc:
+                    out.add((f, node, 'raise'))
+                continue
+            if via == 'reraise':
+                continue
+            site = self.cg.site_of.get(node)
+            if site is None:
+                continue
+            lib = True
+            for g in site.callees:
+                gs = self.summary.get(g, ())
+                if exc in gs:
+                    lib = False
+                    out |= self.origins(g, exc, _seen)
+                elif any(y.startswith(SELFATTR) for y in gs) and exc in \
+                        self.call_raises(f, node):
+                    lib = False
+                    out.add((g, g.node, 'polymorphic raise'))
+            if lib and site.dotted in LIB_RAISES and exc in LIB_RAISES[
+                    site.dotted]:
+                out.add((f, node, 'library:' + site.dotted))
+        return out
 
     def witness(self, f, exc, depth=0, seen=None):
         """A call chain (list of 'file:line desc') by which exc escapes f."""
